@@ -3,20 +3,21 @@
 import json, os, shutil, sys
 pid, v, breaks, needs, detected = sys.argv[1:6]
 missed = sys.argv[6] if len(sys.argv) > 6 else ''
-src = f'/tmp/seed2/{pid}out/{v}'
+ROOT = os.environ.get('SEED_ROOT', '/tmp/seed3')
+src = f'{ROOT}/{pid}out/{v}'
 dst = f'/verif/seeded/{pid}{os.environ.get("SEED_SUFFIX", v)}'
 os.makedirs(dst, exist_ok=True)
 for f in ('patch.diff', 'demo.py', 'notes.md'):
     shutil.copy(os.path.join(src, f), os.path.join(dst, f))
 log = open(os.path.join(src, 'confirm.log')).read().splitlines()
 meta = {
-    'property': pid, 'variant': v, 'origin': 'independent sub-agent given only the property text and a scratch worktree' + (' (round 2: asked for changes different from round 1)' if os.environ.get('SEED_SUFFIX') else ''),
+    'property': pid, 'variant': v, 'origin': 'independent sub-agent given only the property text and a scratch worktree' + (f' (round {os.environ.get("SEED_ROUND", 3)}: asked for changes different from the earlier rounds)' if os.environ.get('SEED_SUFFIX') else ''),
     'breaks': breaks, 'needs_to_manifest': needs,
     'confirmed_by_me': {
-        'commands': [f'cd /tmp/seed2/{pid}w && git apply patch.diff',
+        'commands': [f'cd {ROOT}/{pid}w && git apply patch.diff',
                      '/venv/bin/python demo.py (clean tree -> exit 0, patched -> exit 1)',
                      '/venv/bin/python -m pytest -q -p no:cacheprovider --timeout=900 --continue-on-collection-errors (patched)',
-                     f'VERIF_REPO=/tmp/seed2/{pid}w bin/check {pid} quick (patched)'],
+                     f'VERIF_REPO={ROOT}/{pid}w bin/check {pid} quick (patched)'],
         'log': log},
     'detected_by': detected,
 }
